@@ -229,7 +229,7 @@ def main(tier, seed):
         what = None
         sig = None
         san = re.search(r"ERROR: AddressSanitizer: ([\w-]+)|runtime error: ([^\n]{0,80})", txt)
-        frame = re.search(r"#\d+ 0x[0-9a-f]+ in (\w+) (/repo/[^\s:]+:\d+)", txt)
+        frame = re.search(r"#\d+ 0x[0-9a-f]+ in (\w+) (" + re.escape(REPO) + r"/[^\s:]+:\d+)", txt)
         if san:
             what = "%s: sanitizer report on %s: %s%s" % (tool, name, san.group(1) or san.group(2), (" in %s %s" % (frame.group(1), frame.group(2))) if frame else "")
         elif rc == 124:
